@@ -974,6 +974,23 @@ def call_table():
     add(re_ + "merge_results", lambda I: (dict(r1=I.__dict__.setdefault("r1", I.result(0)), lst=I.__dict__.setdefault("rl1", [I.r1])),
                                           lambda: result.merge_results(I.rl1), None))
 
+    # a merged result is a derived object: mutating it (its trajectories, info, arrays) must not reach the inputs
+    def merge_then_mutate(I):
+        from evo.core.trajectory import Plane
+        m = result.merge_results(I.rl)
+        for name, tr_ in m.trajectories.items():
+            tr_.scale(2.0)
+            tr_.transform(I.T)
+            tr_.reduce_to_ids([0, 1])
+            tr_.project(Plane.XY)
+        m.add_info({"title": "changed", "extra": 1})
+        m.add_trajectory("new", I.A)
+        for k_ in list(m.np_arrays):
+            m.np_arrays[k_] *= 3.0
+        m.stats["rmse"] = -1.0
+    add(re_ + "merge_results", lambda I: (dict(r1=I.__dict__.setdefault("r1", I.result(0)), r2=I.__dict__.setdefault("r2", I.result(1)),
+                                               lst=I.__dict__.setdefault("rl", [I.r1, I.r2])), lambda: merge_then_mutate(I), None))
+
     def res_variant(f):
         def v(I):
             r, o = I.result(0), I.result(2)
